@@ -361,6 +361,14 @@ dt_ummulqura_t UNREACH___ummulqura_fixup(dt_ummulqura_t d) UNREACH_CONTRACT;
 dt_bizda_t UNREACH_dt_conv_to_bizda(struct dt_d_s that) UNREACH_CONTRACT;
 dt_ummulqura_t UNREACH_dt_conv_to_ummulqura(struct dt_d_s this) UNREACH_CONTRACT;
 
+dt_ymcw_t UNREACH___ymcw_add_d(dt_ymcw_t d, int n) UNREACH_CONTRACT;
+dt_ymcw_t UNREACH___ymcw_add_w(dt_ymcw_t d, int n) UNREACH_CONTRACT;
+dt_bizda_t UNREACH___bizda_add_d(dt_bizda_t d, int n) UNREACH_CONTRACT;
+dt_bizda_t UNREACH___bizda_add_w(dt_bizda_t d, int n) UNREACH_CONTRACT;
+struct dt_d_s UNREACH_dt_dadd_b(struct dt_d_s d, int n) UNREACH_CONTRACT;
+struct dt_d_s UNREACH_dt_dadd_m(struct dt_d_s d, int n) UNREACH_CONTRACT;
+struct dt_d_s UNREACH_dt_dadd_y(struct dt_d_s d, int n) UNREACH_CONTRACT;
+
 /* ---- dispatchers in date-core.c */
 #define PRE_dt_dfixup(d) (V_d(d))
 #define POST_dt_dfixup_valid(ret, d) (!V_d(d) || ((ret).u == (d).u && (ret).typ == (d).typ && (ret).param == (d).param && (ret).fix == (d).fix && (ret).neg == (d).neg))
